@@ -17,7 +17,7 @@ The generated bodies return `Rs.M α` (`.err tag` / `.panic` / `.overflow`); the
 Where the model is total and the code is not, the precondition is explicit in the theorem and the behaviour of the
 code outside it is stated by a companion theorem (`…_weight_zero`, `…_overflow`).
 -/
-namespace VlsModel.Props.C05Gen
+namespace VlsModel.Props.C05Fn
 open VlsModel VlsModel.Policy
 open VlsModel.Gen.FnSimple (SimpleValidator SimplePolicy)
 
@@ -35,7 +35,7 @@ def rel (t : Tag) : Rs.M Unit → Except Kind Unit
   | .error (.err s) => if s = t.name then .error t.kind else .error .other
   | .error _ => .error .panic
 
-theorem C05_gen_validate_delay (p : Policy) (t : Tag) (name : String)
+theorem C05_fn_validate_delay (p : Policy) (t : Tag) (name : String)
     (ht : t.name = "policy-channel-contest-delay-range-" ++ name) (delay : Nat) :
     rel t ((toV p).validate_delay (filt p) name delay) = validateDelay p t delay := by
   unfold SimpleValidator.validate_delay validateDelay check policyErr errs Rs.policyErr
@@ -45,7 +45,7 @@ theorem C05_gen_validate_delay (p : Policy) (t : Tag) (name : String)
     by_cases h3 : filterEval p.filter t.name = Gen.Policy.Action.error <;>
     simp [h1, h2, h3, rel, Rs.fail, bind, Except.bind, pure, Except.pure]
 
-theorem C05_gen_validate_expiry (p : Policy) (c : ChainState) (name : String) (expiry : Nat) :
+theorem C05_fn_validate_expiry (p : Policy) (c : ChainState) (name : String) (expiry : Nat) :
     rel .htlcCltvRange ((toV p).validate_expiry (filt p) name expiry c.height) = validateExpiry p c expiry := by
   unfold SimpleValidator.validate_expiry validateExpiry check policyErr errs Rs.policyErr addU32 Rs.uadd
   have hn : Tag.htlcCltvRange.name = "policy-commitment-htlc-cltv-range" := rfl
@@ -62,7 +62,7 @@ theorem C05_gen_validate_expiry (p : Policy) (c : ChainState) (name : String) (e
 
 /-- `validate_fee`: equal to the model for a positive weight and a 64-bit input sum (both call sites guarantee
     them: the weight of a transaction with at least one input, a sum of `u64` amounts checked by `checked_add`). -/
-theorem C05_gen_validate_fee (p : Policy) (t : Tag) (hk : t.kind = .fee) (sumIn sumOut weight : Nat)
+theorem C05_fn_validate_fee (p : Policy) (t : Tag) (hk : t.kind = .fee) (sumIn sumOut weight : Nat)
     (hw : weight ≠ 0) (hin : sumIn ≤ Rs.U64_MAX) :
     rel t ((toV p).validate_fee (filt p) t.name sumIn sumOut weight) = validateFee p t sumIn sumOut weight := by
   unfold SimpleValidator.validate_fee validateFee hard check policyErr errs Rs.policyErr exactFeerate
@@ -82,7 +82,7 @@ theorem C05_gen_validate_fee (p : Policy) (t : Tag) (hk : t.kind = .fee) (sumIn 
 
 /-- outside the precondition: a zero weight is a division panic in the code (the model's `exactFeerate` would
     compute a rate of 0 and go on) -/
-theorem C05_gen_validate_fee_weight_zero (p : Policy) (tag : String) (sumIn sumOut : Nat)
+theorem C05_fn_validate_fee_weight_zero (p : Policy) (tag : String) (sumIn sumOut : Nat)
     (h : sumOut ≤ sumIn) (hin : sumIn ≤ Rs.U64_MAX) :
     (toV p).validate_fee (filt p) tag sumIn sumOut 0 = .error .panic := by
   unfold SimpleValidator.validate_fee
@@ -92,7 +92,7 @@ theorem C05_gen_validate_fee_weight_zero (p : Policy) (tag : String) (sumIn sumO
 
 /-- `expected_commitment_tx_weight` = `commitmentWeight` as long as the `usize` arithmetic does not overflow
     (`num_untrimmed_htlc` is the length of a vector held in memory) -/
-theorem C05_gen_commitment_weight (anchors : Bool) (n : Nat) (hn : n * 172 + 1124 ≤ Rs.USIZE_MAX) :
+theorem C05_fn_commitment_weight (anchors : Bool) (n : Nat) (hn : n * 172 + 1124 ≤ Rs.USIZE_MAX) :
     Gen.FnTxUtil.expected_commitment_tx_weight anchors n = .ok (commitmentWeight anchors n) := by
   unfold Gen.FnTxUtil.expected_commitment_tx_weight commitmentWeight
   unfold Rs.USIZE_MAX at hn
@@ -109,14 +109,14 @@ def toCI (i : Info) : Gen.FnTx.CommitmentInfo2 :=
     offered_htlcs := i.offered.map (fun h => { value_sat := h.value }),
     received_htlcs := i.received.map (fun h => { value_sat := h.value }) }
 
-theorem C05_gen_value_to_parties (i : Info) :
+theorem C05_fn_value_to_parties (i : Info) :
     (toCI i).value_to_parties = (i.toHolder, i.toCounterparty) := by
   unfold Gen.FnTx.CommitmentInfo2.value_to_parties Info.toHolder Info.toCounterparty
   by_cases h : i.isCp = true <;> simp [toCI, h]
 
 /-- `total_value` (plain `+` and `.sum::<u64>()`) = `Info.total` whenever the total fits into `u64`;
-    otherwise the code overflows (`C05_gen_total_value_overflow`) -/
-theorem C05_gen_total_value (i : Info) (h : i.total ≤ Rs.U64_MAX) :
+    otherwise the code overflows (`C05_fn_total_value_overflow`) -/
+theorem C05_fn_total_value (i : Info) (h : i.total ≤ Rs.U64_MAX) :
     (toCI i).total_value = .ok i.total := by
   unfold Gen.FnTx.CommitmentInfo2.total_value
   unfold Info.total sumValues at h
@@ -132,7 +132,7 @@ theorem C05_gen_total_value (i : Info) (h : i.total ≤ Rs.U64_MAX) :
   have a4 : (i.received.map (·.value)).sum ≤ Rs.U64_MAX := by omega
   simp [a1, a2, a3, a4, h, Info.total, sumValues]
 
-theorem C05_gen_total_value_overflow (i : Info) (h : ¬ i.total ≤ Rs.U64_MAX) :
+theorem C05_fn_total_value_overflow (i : Info) (h : ¬ i.total ≤ Rs.U64_MAX) :
     (toCI i).total_value = .error .overflow := by
   unfold Gen.FnTx.CommitmentInfo2.total_value
   unfold Info.total sumValues at h
@@ -152,4 +152,4 @@ theorem C05_gen_total_value_overflow (i : Info) (h : ¬ i.total ≤ Rs.U64_MAX) 
     · simp [a1, a2, Rs.overflow, bind, Except.bind]
   · simp [a1, Rs.overflow, bind, Except.bind]
 
-end VlsModel.Props.C05Gen
+end VlsModel.Props.C05Fn
